@@ -25,6 +25,7 @@ from fractions import Fraction
 from .. import astutil as A
 from .. import runoff
 from ..alg import FragmentFault, Interp, Obj, Poly, PyFunc, Undecided, fn, same_value, to_poly
+from ..alg import tensorlib_obj as _tensorlib_obj
 from .. import listnp
 from ..dep import Deps
 
@@ -190,7 +191,7 @@ def run(ctx):
         try:
             pattrs = {}
             penv = {a_: Poly.atom(a_.upper()) for a_ in pargs}
-            pext = {"get_backend": lambda a, k: (Obj("tensorlib"), None), ctor: lambda a, k, ctor=ctor: Obj(str(fn(ctor, *[to_poly(x) for x in a], *[to_poly(v_) for _, v_ in sorted(k.items())])))}
+            pext = {"get_backend": (lambda tl_: (lambda a, k: (tl_, None)))(_tensorlib_obj()), ctor: lambda a, k, ctor=ctor: Obj(str(fn(ctor, *[to_poly(x) for x in a], *[to_poly(v_) for _, v_ in sorted(k.items())])))}
             Interp(penv, pattrs, {}, cls_name=pcls, externals=pext).run(A.strip_docstring(pc.methods["__init__"].node.body))
             mean = Interp({}, pattrs, {}, cls_name=pcls, externals=pext).run(A.strip_docstring(pc.methods["expected_data"].node.body))
             got_pdf = getattr(pattrs.get("_pdf"), "name", str(pattrs.get("_pdf")))
@@ -518,7 +519,7 @@ def _constraint_tables(ctx, rid, repo):
                 "param_set": lambda a, k: psets[a[0]],
                 "ParamViewer": viewer,
                 "subscribe": lambda a, k: PyFunc(lambda a2, k2: None, "subscriber"),
-                "get_backend": lambda a, k: (Obj("tensorlib"), None),
+                "get_backend": (lambda tl_: (lambda a, k: (tl_, None)))(_tensorlib_obj()),
             })
             cfg = Obj("pdfconfig", {"auxdata": [at(f"aux{j}") for j in range(6)], "auxdata_order": list(order), "npars": Poly.const(6), "par_map": Obj("par_map")})
             attrs = {}
